@@ -513,7 +513,7 @@ def check_surface_object(R, g, surf):
     return bool(ok)
 
 
-def trace_and_judge(R, geos, P0, S0, n_ambient, tally, form='batch', prebuilt=None):
+def trace_and_judge(R, geos, P0, S0, n_ambient, tally, form='batch', prebuilt=None, hygiene=True):
     """raytrace the prescription and judge every hop.  P0, S0: (N,3).  prebuilt: Surfaces constructed by the caller."""
     surfs = []
     for i, g in enumerate(geos):
@@ -524,7 +524,7 @@ def trace_and_judge(R, geos, P0, S0, n_ambient, tally, form='batch', prebuilt=No
     N = P0.shape[0]
     J = len(geos)
     if form == 'batch':
-        out = R.call(sm.raytrace, surfs, P0.copy(), S0.copy(), WVL, n_ambient=n_ambient,
+        out = R.call(sm.raytrace, surfs, P0.copy(), S0.copy(), WVL, n_ambient=n_ambient, hygiene=hygiene,
                      sig='raytrace:exception:' + '+'.join(sorted({g.typ for g in geos})))
         if out is FAILED:
             return None
@@ -1104,6 +1104,112 @@ def rayform_cases(tier):
     return out
 
 
+# -- bundle size thresholds ------------------------------------------------------------------------------------------
+
+GOLDEN = math.pi * (3 - math.sqrt(5))
+
+
+def size_alphabet(tier):
+    """Ray counts just above a power of two and not a multiple of it (k = 7..16), ascending; thorough: also 2^k - 1 and 2^k."""
+    out = set()
+    for k in range(7, 17):
+        out |= {2 ** k + 1, 2 ** k + 2 ** (k - 1) + 3}
+        if tier == 'thorough':
+            out |= {2 ** k - 1, 2 ** k}
+    return sorted(out)
+
+
+HY_MAX = 2 ** 13 + 2 ** 12 + 3     # 12291 rays
+HUGE = 2 ** 20 + 1           # one bundle beyond 2^20 rays (the module's own benchmark note speaks of batches of a million)
+
+
+def big_bundle(kind, N):
+    """N rays whose origin and / or direction differ from ray to ray: ray i is tied to point i of a golden-angle (sunflower)
+    spiral of radius 25 in the plane z=0, so neighbouring indices are far apart and no two rays of a bundle coincide."""
+    i = np.arange(N, dtype=float)
+    rho = 25.0 * np.sqrt((i + 0.5) / N)
+    th = i * GOLDEN
+    T = np.stack([rho * np.cos(th), rho * np.sin(th), np.zeros(N)], axis=1)
+    if kind == 'cone':                          # off-axis point source: one origin, every direction different (skew rays)
+        P = np.tile([3.0, -2.0, -60.0], (N, 1))
+        S = T - P
+    elif kind == 'converging':                  # launched from a tilted plane (every origin, every z, every direction different)
+        P = np.stack([1.2 * T[:, 0], 1.2 * T[:, 1], -20.0 + 0.1 * T[:, 0] - 0.05 * T[:, 1]], axis=1)
+        S = np.array([-4.0, 6.0, 150.0]) - P
+    elif kind == 'collimated':                  # one skew direction, every origin different
+        P = T + np.array([0.0, 0.0, -20.0])
+        S = np.tile([0.05, -0.03, math.sqrt(1 - 0.05 ** 2 - 0.03 ** 2)], (N, 1))
+    else:
+        raise ValueError(kind)
+    S = S / np.linalg.norm(S, axis=1)[:, None]
+    return P, S
+
+
+def big_pool():
+    return {
+        'mirror': [{'shape': {'kind': 'conic', 'c': 1 / 120, 'k': -0.6}, 'P': [1.5, -2.0, 12.0], 'R': [0, 5, 3], 'typ': 'refl', 'n': 1.0}],
+        'singlet': [{'shape': {'kind': 'sphere', 'c': 1 / 80}, 'P': [0.0, 0.0, 5.0], 'R': None, 'typ': 'refr', 'n': 1.62},
+                    {'shape': {'kind': 'conic', 'c': -1 / 90, 'k': -1.0}, 'P': [0.5, -0.3, 15.0], 'R': [0, 5, 3], 'typ': 'refr', 'n': 1.0}],
+        'two-mirror': [{'shape': {'kind': 'conic', 'c': -1 / 300, 'k': -1.0}, 'P': [0.0, 0.0, 80.0], 'R': None, 'typ': 'refl', 'n': 1.0},
+                       {'shape': {'kind': 'oac', 'c': -1 / 200, 'k': -1.0, 'dx': 20.0, 'dy': 0.0}, 'P': [2.0, -3.0, 10.0], 'R': [25, 9, 12], 'typ': 'refl', 'n': 1.0}],
+    }
+
+
+def run_bundlesize(case, seed, R):
+    """EVERY ray of a big bundle is judged by the hop oracle (a blocked / chunked solver goes wrong in the later blocks / the tail)."""
+    N = case['N']
+    hy = bool(case.get('hygiene', True))
+    geos = [Geo(sd, seed) for sd in big_pool()[case['pres']]]
+    P0, S0 = big_bundle(case['bundle'], N)
+    surfs = [g.build(R) for g in geos]
+    if any(sf is FAILED for sf in surfs):
+        return
+    tally = new_tally()
+    trace_and_judge(R, geos, P0, S0, 1.0, tally, form='batch', prebuilt=surfs, hygiene=hy)
+    report_tally(R, tally)
+    # intersect() itself, rays handed over in the local frame of the first surface (explicit array arguments: hygiene variants)
+    g0 = geos[0]
+    p, d = g0.to_local(P0, S0)
+    out = R.call(sm.intersect, p.copy(), d.copy(), surfs[0].sag_normal, hygiene=hy, sig='intersect:exception') if case.get('direct', True) else FAILED
+    if out is not FAILED:
+        if not (isinstance(out, tuple) and len(out) == 2):
+            R.violation('intersect:return', f'intersect returned {type(out).__name__}, not (Pj, r)')
+        else:
+            Pj = as_array(R, out[0], (N, 3), 'intersect:shape', 'intersect Pj')
+            r = as_array(R, out[1], (N, 3), 'intersect:shape', 'intersect r')
+            if Pj is not None and r is not None:
+                gl = Geo(dict(g0.sd, P=[0.0, 0.0, 0.0], R=None, typ='eval'), seed)       # the same shape in its own frame; bends nothing
+                t2 = new_tally()
+                good = judge_hop(R, gl, 1.0, p, d, Pj, d, np.ones(N, bool), 'intersect', t2)
+                if good.any():
+                    with np.errstate(all='ignore'):
+                        nh = r / np.linalg.norm(r, axis=1)[:, None]
+                        err = np.abs(nh - gl.normal(np.where(good, Pj[:, 0], 0.0), np.where(good, Pj[:, 1], 0.0))).max(axis=1) / TOL_D
+                    ok, i = worst(err, good, 1.0)
+                    R.expect(ok, f'intersect:normal:{gl.st}', f'direction of the normal returned by intersect vs the reference unit normal at the returned point: '
+                                                              f'|err|/tol = {float(np.where(np.isfinite(err), err, np.inf)[i]):.3e} at ray index {i} of {N}')
+    R.outcome(f'N={"2^%d+" % int(math.log2(N)) if N & (N - 1) else "2^%d" % int(math.log2(N))}')
+
+
+def bundlesize_cases(tier):
+    """All bundle x prescription pairs up to HY_MAX rays with the repeated-call hygiene variants (they cost ~10 traces); beyond that
+    quick runs the two pairs that together contain both bundles and both prescriptions, one call each."""
+    kinds = ['cone', 'converging'] + (['collimated'] if tier == 'thorough' else [])
+    press = ['mirror', 'singlet'] + (['two-mirror'] if tier == 'thorough' else [])
+    out = []
+    for N in size_alphabet(tier):
+        for b in kinds:
+            for p_ in press:
+                if tier == 'quick' and N > HY_MAX and (b, p_) not in (('cone', 'singlet'), ('converging', 'mirror')):
+                    continue
+                out.append({'N': N, 'bundle': b, 'pres': p_, 'hygiene': bool(N <= HY_MAX or tier == 'thorough'), 'direct': True})
+    if tier == 'quick':
+        out.append({'N': HUGE, 'bundle': 'converging', 'pres': 'mirror', 'hygiene': False, 'direct': False})
+    else:
+        out += [{'N': HUGE, 'bundle': b, 'pres': p_, 'hygiene': True, 'direct': True} for b in kinds[:2] for p_ in press[:2]]
+    return out
+
+
 # -- far ray origins ---------------------------------------------------------------------------------
 
 def run_far(case, seed, R):
@@ -1333,6 +1439,15 @@ def plan(tier, seed):
                   '{batch of 25, single 1-D ray} x prescriptions {parabolic mirror hit travelling -z, tilted refracting sphere, sphere+plane[, more in thorough]}; integer-valued lattice '
                   'and axial directions so that every form expresses the same rays; the float64 trace is judged hop by hop and every other spelling must return floating-point '
                   'histories equal to it (64 eps; single precision only when the positions were given in float32)', reset=rs_),
+        ScopeUnit('bundlesize', bundlesize_cases(tier), run_bundlesize,
+                  'bundle-size threshold alphabet: ray counts N in {2^k + 1, 2^k + 2^(k-1) + 3 for k = 7..16} (129 .. 98307 rays[, thorough: also 2^k - 1 and 2^k]) x bundles whose rays '
+                  'differ from ray to ray {off-axis point-source cone (one origin, N directions), converging beam launched from a tilted plane (N origins with N different z, N directions)'
+                  '[, thorough: skew collimated]}, ray i tied to point i of a golden-angle spiral so that index neighbours are far apart, x prescriptions {tilted decentred concave '
+                  'ellipsoidal mirror, singlet of a refracting sphere + tilted decentred refracting paraboloid (the second surface meets directions bent by the first)[, thorough: two '
+                  'mirrors, the second a tilted off-axis paraboloid met travelling -z]}; ONE raytrace call per case and EVERY ray (in particular the last ones) judged on every clause of the hop oracle; '
+                  'plus intersect() called directly with the same rays in the local frame of the first surface (point on surface / on the ray / equal to the reference root, direction of '
+                  'the returned normal).  One bundle of 2^20 + 1 rays (quick: converging beam on the mirror, without the repeated-call hygiene variants; thorough: 2 bundles x 2 prescriptions with them).  '
+                  'This unit is not closed over the data dimension: block sizes that are not near these counts, or beyond 2^20 rays, are not enumerated; Q-type surfaces are not traced at these sizes', reset=rs_, chunk=1),
         ScopeUnit('far', far_cases(tier), run_far,
                   'ray origins far from the surface: the 100-ray bundle launched |Z0| in {1e3, 1e7} (thorough: also 1e5, 1e9) before and after the local z=0 plane (both directions of '
                   'travel) x 7 shapes (plane, spheres, parabola, ellipsoid, off-axis parabola, Q-type) x 2 poses x {reflect, refract (1,1.5), (1.5,1)}; the height above the surface '
